@@ -195,6 +195,12 @@ func (a *Analysis) ruleGates() {
 	if bits == 32 {
 		maxInt, minInt = math.MaxInt32, math.MinInt32
 	}
+	// the length of a slice is bounded by what the runtime can allocate (2^48 bytes on
+	// 64-bit platforms, 2^31-1 on 32-bit ones): the domain of len() subjects
+	maxLen := int64(1) << 48
+	if bits == 32 {
+		maxLen = math.MaxInt32
+	}
 	// G1: len(entropy) in NewMnemonicByEntropy
 	if a.NME != nil {
 		var param *ssa.Parameter
@@ -214,7 +220,7 @@ func (a *Analysis) ruleGates() {
 					subj[c.Value()] = true
 				}
 			}
-			res := AnalyseGate(a.NME, subj, a.NME.Blocks[0], ZRange(0, maxInt), bits)
+			res := AnalyseGate(a.NME, subj, a.NME.Blocks[0], ZRange(0, maxLen), bits)
 			a.Gate1 = a.checkGate(gateSpec{rule: "G1", fn: a.NME, what: "len(" + param.Name() + ")", spec: specEntLens(), sentinel: "ErrEntropyLen", strResult: true}, res)
 		}
 	}
@@ -259,7 +265,7 @@ func (a *Analysis) ruleGates() {
 			if calleeName(tok) == "strings.Split" {
 				lo = 1
 			}
-			res := AnalyseGate(a.CM, subj, tok.Block(), ZRange(lo, maxInt), bits)
+			res := AnalyseGate(a.CM, subj, tok.Block(), ZRange(lo, maxLen), bits)
 			a.Gate3 = a.checkGate(gateSpec{rule: "G3", fn: a.CM, what: "len(tokens)", spec: specWordCounts(), sentinel: "ErrWordLen", allowLateFail: true}, res)
 		}
 	}
@@ -295,7 +301,7 @@ func (a *Analysis) checkGate(gs gateSpec, res *GateResult) *GateInfo {
 		b := ret.Block()
 		rp := a.P.InstrPos(ret)
 		reach, reached := res.Reach[b]
-		errv := ret.Results[len(ret.Results)-1]
+		errv := returnedValue(ret, len(ret.Results)-1) // sees through `*cell = v; rundefers; return *cell`
 		isNil := isNilConst(errv)
 		key := fmt.Sprintf("%s/exit@block%s", fk, exitLabel(ret))
 		if res.Pre[b] {
@@ -331,7 +337,7 @@ func (a *Analysis) checkGate(gs gateSpec, res *GateResult) *GateInfo {
 				r.OK(gs.rule+"e", key+"/error", rp, "", "rejected %s returns %s", gs.what, desc)
 			}
 			if gs.strResult {
-				if s, isC := strConst(ret.Results[0]); !isC || s != "" {
+				if s, isC := strConst(returnedValue(ret, 0)); !isC || s != "" {
 					r.Bad(gs.rule+"e", key+"/empty", rp, "", "rejected %s does not return the empty string", gs.what)
 				} else {
 					r.OK(gs.rule+"e", key+"/empty", rp, "", "returns \"\"")
@@ -380,7 +386,8 @@ func (a *Analysis) checkGate(gs gateSpec, res *GateResult) *GateInfo {
 func exitLabel(ret *ssa.Return) string {
 	// label an exit by what it returns, not by where it is
 	var parts []string
-	for _, v := range ret.Results {
+	for i := range ret.Results {
+		v := returnedValue(ret, i)
 		switch x := v.(type) {
 		case *ssa.Const:
 			if x.Value == nil {
